@@ -15,6 +15,7 @@ type Tape struct {
 	pos       int
 	Rec       []int32
 	forced    []int32
+	Named     map[string]int32 // generate mode: values for named choices (exhaustive sweeps); recorded like any other
 }
 
 func splitmix(x *uint64) uint64 {
@@ -134,3 +135,38 @@ func (t *Tape) U16() uint16 {
 // values (reduced modulo the range). Used for stratified sweeps: the forced
 // values are recorded like any other, so a replay needs no special casing.
 func (t *Tape) Force(vals []int32) { t.forced = append(t.forced, vals...) }
+
+// ChooseAs is Choose for a named decision: in generate mode a sweep can pin it through Named.
+func (t *Tape) ChooseAs(name string, n int) int {
+	if n <= 1 {
+		return 0
+	}
+	if !t.replaying {
+		if v, ok := t.Named[name]; ok {
+			x := int(v) % n
+			if x < 0 {
+				x = 0
+			}
+			t.Rec = append(t.Rec, int32(x))
+			return x
+		}
+	}
+	return t.Choose(n)
+}
+
+// Has reports whether a sweep pinned the named decision (generate mode only).
+func (t *Tape) Has(name string) bool {
+	if t.replaying {
+		return false
+	}
+	_, ok := t.Named[name]
+	return ok
+}
+
+// PickAs is Pick for a named decision (a sweep pins the index, not the weighted draw).
+func (t *Tape) PickAs(name string, weights ...int) int {
+	if t.Has(name) {
+		return t.ChooseAs(name, len(weights))
+	}
+	return t.Pick(weights...)
+}
